@@ -260,7 +260,12 @@ func New(config ...Config) fiber.Handler {
 
 		// For external Storage we store raw body separated
 		if cfg.Storage != nil {
-			manager.setRaw(key+"_body", e.body, expiration)
+			if len(e.body) == 0 {
+				// storages ignore empty values, do not leave the body of an older entry behind
+				manager.del(key + "_body")
+			} else {
+				manager.setRaw(key+"_body", e.body, expiration)
+			}
 			// avoid body msgp encoding
 			e.body = nil
 			manager.set(key, e, expiration)
